@@ -270,6 +270,10 @@ class Check:
     # ---- verdicts
     def violation(self, klass, where, case, detail):
         """A property-level disagreement.  `klass` is the diagnosis class used to match known findings."""
+        if "not-run" in klass:
+            # the harness stops running a batch after 12 timeouts (isolate.rs): those cases carry no verdict
+            self.cov["not_run_after_timeouts"] = self.cov.get("not_run_after_timeouts", 0) + 1
+            return "not-run"
         for k in self.known:
             if k.get("class") == klass and (not k.get("where") or k.get("where") == where):
                 kid = k["id"]
